@@ -214,7 +214,12 @@ fn run(ctx: &Ctx) -> Run {
             check_relabelling(run);
         }
         let n = ctx.n(12_000_000, 400_000_000) / threads as u64;
-        for _ in 0..n {
+        for i in 0..n {
+            if i % 50_000 == 0 {
+                // the exhaustive relabelling check again, on every worker, while the other workers keep the library busy
+                check_relabelling(run);
+                run.count("relabelling.exhaustive_passes_under_concurrency");
+            }
             let class = *rng.pick(&["uniform", "seam", "seam", "dvertex", "edgemid", "fcentre", "polar"]);
             let (lon, lat) = gen::point(&mut rng, &fr, class);
             run.count(&format!("class.{class}"));
